@@ -91,7 +91,7 @@ func bufconnMain(shard, n int) *wres {
 		return res
 	}
 
-	lis := bufconn.Listen(1 << 20)
+	lis := bufconn.Listen(32 << 10) // per connection two pipes of this size are allocated
 	srv := grpc.NewServer()
 	es := &evilServer{}
 	pb.RegisterGossipAPIServer(srv, es)
@@ -102,9 +102,12 @@ func bufconnMain(shard, n int) *wres {
 		grpc.WithContextDialer(func(ctx context.Context, _ string) (net.Conn, error) { return lis.DialContext(ctx) }),
 	}
 
-	sch := schemaPeerVertex(thorough, false, thorough)
+	// quick: base + single sweeps + all pairs; thorough: + the two red3 blocks.  (The conversion of the peer's vertex is the same
+	// code as in processLackingParent, which is explored with the larger blocks inside the controlled runtime; a real gRPC
+	// stream costs milliseconds.)
+	sch := schemaPeerVertex(false, false, thorough)
 	if !thorough {
-		sch.blocks = nil // quick: base + single sweeps + all pairs (the same conversion is covered with the blocks by processLackingParent)
+		sch.blocks = nil
 	}
 	shapes, rule := sch.enumerate(200_000)
 	d := &rpcDef{name: updName, sch: sch}
@@ -162,19 +165,25 @@ func bufconnMain(shard, n int) *wres {
 			select {
 			case o = <-ch:
 			case <-time.After(10 * time.Second):
-				hung = "updateDag did not return within 10 s"
+				// a loaded machine can stall a process for seconds: only a call that is still stuck after another 50 s counts
+				res.Slow++
+				select {
+				case o = <-ch:
+				case <-time.After(50 * time.Second):
+					hung = "updateDag did not return within 60 s"
+				}
 			}
 			var lp *panicRec
 			if hung == "" {
 				select {
 				case lp = <-jb.done:
-				case <-time.After(10 * time.Second):
-					hung = "the ledger's LoadDag goroutine did not finish within 10 s after updateDag returned"
+				case <-time.After(60 * time.Second):
+					hung = "the ledger's LoadDag goroutine did not finish within 60 s after updateDag returned"
 				}
 			}
 			cancel()
 			st.Shapes++
-			if st.Shapes%1000 == 0 {
+			if st.Shapes%500 == 0 {
 				runtime.GC()
 			}
 			ws := witnessOf(d, "fresh node syncing from a peer that streams S1 + this vertex", sh, variant, nil)
